@@ -140,7 +140,7 @@ def work(k, queue, lock, shards, done):
                             res["status"] = "detected"
                             break
                         elif rc == 0:
-                            res["checks"][pid] = {"verdict": "not-detected"}
+                            res["checks"][pid] = {"verdict": "not-detected", "tail": out[-300:]}
                         elif rc == -9:
                             res["checks"][pid] = {"verdict": "timeout"}
                             res["status"] = "detected(timeout: check did not finish)"
